@@ -831,6 +831,170 @@ theorem fall_ifInitElse (F : FloatOps) (B : List String) (pos bp : Pos) (i : Stm
   | bool p b => simp [isBoolLit] at hnb
   | _ => exact fall_ifInitElse_core F B pos i _ body e hFi hFc hb he oki okb rfl hc hcov hok hinv
 
+/-! ### `if false`: the JUMP (without `else`) / the second JUMP (with `else`) targets the end -/
+
+theorem falls_ifFalse (pos : Pos) {cs cs' : CState} (hinv : Inv cs)
+    (hc : runCM (do
+        let j ← Compile.emit pos Compile.OpJump [0]
+        Compile.changeOperand j [(← Compile.curPos)]) cs = (.ok (), cs')) :
+    FallsJ cs'.insts cs.insts.size cs'.insts.size := by
+  obtain ⟨j1, cs2, hj1, hc⟩ := bind_inv hc
+  obtain ⟨x1, cs3, hx1, hc⟩ := bind_inv hc
+  obtain ⟨rfl, rfl⟩ := curPos_inv hx1
+  have she1 := Shape.of_emit hj1
+  obtain ⟨bsj1, hbsj1, hjp1, e2⟩ := emit_inv hj1
+  obtain ⟨_, c1, c2, c3, c4, rfl, _⟩ := mk_w4 Compile.OpJump rfl _ _ hbsj1
+  obtain ⟨opb1, bs1, hopb1, hbs1, e5⟩ := changeOperand_inv hc
+  have hsz2 : cs3.insts.size = cs.insts.size + 5 := by rw [e2]; simp
+  have hop1 : cs3.insts[cs.insts.size]? = some (UInt8.ofNat Compile.OpJump) := by
+    rw [e2]; exact emit_bytes (cs := cs) _ 0 (by simp)
+  have hopb1' : opb1 = UInt8.ofNat Compile.OpJump := by
+    rw [hjp1, hop1] at hopb1
+    injection hopb1 with h; exact h.symm
+  rw [hopb1'] at hbs1
+  obtain ⟨_, b1, b2, b3, b4, rfl, hdec1⟩ := mk_w4 Compile.OpJump rfl _ _ hbs1
+  have hsz' : cs'.insts.size = cs3.insts.size := by rw [e5]; exact Compile.size_patch _ _ _
+  have hins' : cs'.insts = Compile.patch cs3.insts cs.insts.size [UInt8.ofNat Compile.OpJump, b1, b2, b3, b4] := by
+    rw [e5, hjp1]
+  have w1 : Walk cs'.insts 0 cs.insts.size := by
+    rw [hins']; exact hinv.walk.pre (Compile.Pre.patch she1.pre (Nat.le_refl _))
+  have hat : Compile.InstAt cs'.insts cs.insts.size [UInt8.ofNat Compile.OpJump, b1, b2, b3, b4] := by
+    intro k hk
+    rw [hins']
+    exact Compile.patch_get_mid _ _ _ _ hk (by simp; omega)
+  have hrd : readBE cs'.insts (cs.insts.size + 1) 4 = cs3.insts.size :=
+    Compile.inst_read_jump hbs1 (by decide) rfl hat
+  refine ⟨cs.insts.size, UInt8.ofNat Compile.OpJump, w1, Nat.le_refl _, ?_, .inr ⟨by decide, by omega, by rw [hrd, hsz']⟩⟩
+  simpa using hat 0 (by simp)
+
+set_option maxHeartbeats 1600000 in
+theorem falls_ifFalseElse (F : FloatOps) (B : List String) (pos : Pos) (nE : Nat) (actE : Compile.CM Unit)
+    (semE : Nat → Sem.Env → Sem.SM (Sem.Comp × Sem.Env)) (hE : GoodB F B nE actE semE)
+    {cs cs' : CState} (hcov : Cov B (localIdx cs)) (hok : CsOK cs) (hinv : Inv cs)
+    (hc : runCM (do
+        let j ← Compile.emit pos Compile.OpJump [0]
+        let j2 ← Compile.emit pos Compile.OpJump [0]
+        Compile.changeOperand j [(← Compile.curPos)]
+        actE
+        Compile.changeOperand j2 [(← Compile.curPos)]) cs = (.ok (), cs')) :
+    FallsJ cs'.insts cs.insts.size cs'.insts.size := by
+  obtain ⟨j1, cs2, hj1, hc⟩ := bind_inv hc
+  obtain ⟨j2, cs3', hj2, hc⟩ := bind_inv hc
+  obtain ⟨x1, cs3, hx1, hc⟩ := bind_inv hc
+  obtain ⟨rfl, rfl⟩ := curPos_inv hx1
+  obtain ⟨_, cs4, hp1, hc⟩ := bind_inv hc
+  obtain ⟨_, cs5', hcf, hc⟩ := bind_inv hc
+  obtain ⟨x2, cs5, hx2, hc⟩ := bind_inv hc
+  obtain ⟨rfl, rfl⟩ := curPos_inv hx2
+  have she1 := Shape.of_emit hj1
+  have she2 := Shape.of_emit hj2
+  have hok2 := hok.of_shape she1
+  have hok3 := hok2.of_shape she2
+  obtain ⟨bsj1, hbsj1, hjp1, e2⟩ := emit_inv hj1
+  obtain ⟨bsj2, hbsj2, hjp2, e3⟩ := emit_inv hj2
+  obtain ⟨_, c1, c2, c3, c4, rfl, _⟩ := mk_w4 Compile.OpJump rfl _ _ hbsj1
+  obtain ⟨_, d1, d2, d3, d4, rfl, _⟩ := mk_w4 Compile.OpJump rfl _ _ hbsj2
+  obtain ⟨opb1, bs1, hopb1, hbs1, e4⟩ := changeOperand_inv hp1
+  have hsz2 : cs2.insts.size = cs.insts.size + 5 := by rw [e2]; simp
+  have hsz3 : cs3.insts.size = cs2.insts.size + 5 := by rw [e3]; simp
+  have hop1 : cs2.insts[cs.insts.size]? = some (UInt8.ofNat Compile.OpJump) := by
+    rw [e2]; exact emit_bytes (cs := cs) _ 0 (by simp)
+  have hop13 : cs3.insts[cs.insts.size]? = some (UInt8.ofNat Compile.OpJump) := getElem?_of_pre she2.pre hop1
+  have hopb1' : opb1 = UInt8.ofNat Compile.OpJump := by
+    rw [hjp1, hop13] at hopb1
+    injection hopb1 with h; exact h.symm
+  rw [hopb1'] at hbs1
+  obtain ⟨_, b1, b2, b3, b4, rfl, hdec1⟩ := mk_w4 Compile.OpJump rfl _ _ hbs1
+  have hsz4 : cs4.insts.size = cs3.insts.size := by rw [e4]; exact Compile.size_patch _ _ _
+  have hins4 : cs4.insts = Compile.patch cs3.insts cs.insts.size [UInt8.ofNat Compile.OpJump, b1, b2, b3, b4] := by
+    rw [e4, hjp1]
+  have ht4 : cs4.tables = cs3.tables := by rw [e4]
+  have hok4 : CsOK cs4 := hok3.of_tables ht4 (by rw [e4])
+  have hl4 : localIdx cs4 = localIdx cs := by
+    have : localIdx cs4 = localIdx cs3 := by rw [e4]; rfl
+    rw [this, she2.localIdx, she1.localIdx]
+  obtain ⟨seE, hok5, htlE, simE⟩ := hE cs4 cs5 hcf (by rw [hl4]; exact hcov) hok4
+  obtain ⟨opb2, bs2, hopb2, hbs2, e6⟩ := changeOperand_inv hc
+  have hle45 : cs4.insts.size ≤ cs5.insts.size := seE.pre.1
+  have hop2 : cs3.insts[cs2.insts.size]? = some (UInt8.ofNat Compile.OpJump) := by
+    rw [e3]; exact emit_bytes (cs := cs2) _ 0 (by simp)
+  have h4 : cs4.insts[cs2.insts.size]? = some (UInt8.ofNat Compile.OpJump) := by
+    rw [hins4, Compile.patch_get_ge _ _ _ _ (by simp; omega)]; exact hop2
+  have hop5 : cs5.insts[cs2.insts.size]? = some (UInt8.ofNat Compile.OpJump) := getElem?_of_pre seE.pre h4
+  have hopb2' : opb2 = UInt8.ofNat Compile.OpJump := by
+    rw [hjp2, hop5] at hopb2
+    injection hopb2 with h; exact h.symm
+  rw [hopb2'] at hbs2
+  obtain ⟨_, e1, e2', e3', e4', rfl, hdec2⟩ := mk_w4 Compile.OpJump rfl _ _ hbs2
+  have hsz' : cs'.insts.size = cs5.insts.size := by rw [e6]; exact Compile.size_patch _ _ _
+  have hins' : cs'.insts = Compile.patch cs5.insts cs2.insts.size [UInt8.ofNat Compile.OpJump, e1, e2', e3', e4'] := by
+    rw [e6, hjp2]
+  have g2 := good_run (good_emit_jump pos Compile.OpJump (by decide) (by decide)) hinv hj1
+  have w3 : Walk cs3.insts 0 cs2.insts.size := g2.1.walk.pre she2.pre
+  have w30 : Walk cs3.insts 0 cs.insts.size := hinv.walk.pre (she1.pre.trans she2.pre)
+  have w4 : Walk cs4.insts 0 cs2.insts.size := by
+    rw [hins4]; exact Compile.Walk.patch_inst w3 w30 hop13 (by show (4 : Nat) = _; decide)
+  have w5 : Walk cs5.insts 0 cs2.insts.size := w4.pre seE.pre
+  have w' : Walk cs'.insts 0 cs2.insts.size := by
+    rw [hins']; exact Compile.Walk.patch_inst w5 w5 hop5 (by show (4 : Nat) = _; decide)
+  have hat : Compile.InstAt cs'.insts cs2.insts.size [UInt8.ofNat Compile.OpJump, e1, e2', e3', e4'] := by
+    intro k hk
+    rw [hins']
+    exact Compile.patch_get_mid _ _ _ _ hk (by simp; omega)
+  have hrd : readBE cs'.insts (cs2.insts.size + 1) 4 = cs5.insts.size :=
+    Compile.inst_read_jump hbs2 (by decide) rfl hat
+  refine ⟨cs2.insts.size, UInt8.ofNat Compile.OpJump, w', by omega, ?_, .inr ⟨by decide, by omega, by rw [hrd, hsz']⟩⟩
+  simpa using hat 0 (by simp)
+
+theorem fall_ifFalse_core (F : FloatOps) (B : List String) (pos : Pos) {act : Compile.CM Unit}
+    (hact : act = (pure () >>= fun _ => (do
+        let j ← Compile.emit pos Compile.OpJump [0]
+        Compile.changeOperand j [(← Compile.curPos)])))
+    {cs cs' : CState} (hc : runCM (Compile.withBlock act) cs = (.ok (), cs'))
+    (hcov : Cov B (localIdx cs)) (hok : CsOK cs) (hinv : Inv cs) :
+    Falls cs'.insts cs.insts.size cs'.insts.size := by
+  subst hact
+  obtain ⟨cs1, cs2, hact, hi1, hi', hcov1, hok1, hinv1⟩ :=
+    withBlock_inv F hc (good_ifFalse F B pos).toC.pure_bind hcov hok hinv
+  obtain ⟨_, csx, hp, hact⟩ := bind_inv hact
+  obtain ⟨_, rfl⟩ := pure_inv hp
+  have := falls_ifFalse pos hinv1 hact
+  rw [hi', ← hi1]; exact .inr this
+
+theorem fall_ifFalse (F : FloatOps) (B : List String) (pos bp p : Pos) (body : List Stmt) :
+    FallS B (.if_ pos none (.bool p false) bp body none) := by
+  intro cs cs' hc hcov hok hinv _
+  rw [Compile.compileStmt_eq] at hc
+  simp only at hc
+  exact fall_ifFalse_core F B pos rfl hc hcov hok hinv
+
+theorem fall_ifFalseElse_core (F : FloatOps) (B : List String) (pos : Pos) (e : Stmt) (he : ElseF B e = true)
+    {act : Compile.CM Unit}
+    (hact : act = (pure () >>= fun _ => (do
+        let j ← Compile.emit pos Compile.OpJump [0]
+        let j2 ← Compile.emit pos Compile.OpJump [0]
+        Compile.changeOperand j [(← Compile.curPos)]
+        compileStmt e
+        Compile.changeOperand j2 [(← Compile.curPos)])))
+    {cs cs' : CState} (hc : runCM (Compile.withBlock act) cs = (.ok (), cs'))
+    (hcov : Cov B (localIdx cs)) (hok : CsOK cs) (hinv : Inv cs) :
+    Falls cs'.insts cs.insts.size cs'.insts.size := by
+  subst hact
+  have hE := (allS F (sizeOf e + 1)).els e (Nat.lt_succ_self _) B he
+  obtain ⟨cs1, cs2, hact, hi1, hi', hcov1, hok1, hinv1⟩ :=
+    withBlock_inv F hc (good_ifFalseElse F B pos _ _ _ hE).toC.pure_bind hcov hok hinv
+  obtain ⟨_, csx, hp, hact⟩ := bind_inv hact
+  obtain ⟨_, rfl⟩ := pure_inv hp
+  have := falls_ifFalseElse F B pos _ _ _ hE hcov1 hok1 hinv1 hact
+  rw [hi', ← hi1]; exact .inr this
+
+theorem fall_ifFalseElse (F : FloatOps) (B : List String) (pos bp p : Pos) (body : List Stmt) (e : Stmt)
+    (he : ElseF B e = true) : FallS B (.if_ pos none (.bool p false) bp body (some e)) := by
+  intro cs cs' hc hcov hok hinv _
+  rw [Compile.compileStmt_eq] at hc
+  simp only at hc
+  exact fall_ifFalseElse_core F B pos e he rfl hc hcov hok hinv
+
 /-! ### every statement (list) of the fragment -/
 
 structure AllF (F : FloatOps) (n : Nat) : Prop where
@@ -866,7 +1030,10 @@ theorem okE_of_condF {B : List String} {c : Expr} (h : condF B c = true) : okE c
   by_cases ht : isTrueLit c = true
   · obtain ⟨p, rfl⟩ := isTrueLit_inv ht
     simp [okE]
-  · exact okE_of_exprF _ c (condF_split h ht).1
+  · by_cases hf : isFalseLit c = true
+    · obtain ⟨p, rfl⟩ := isFalseLit_inv hf
+      simp [okE]
+    · exact okE_of_exprF _ c (condF_split h ht hf).1
 
 theorem fstep_else {F : FloatOps} {n : Nat} (ih : AllF F n) (e : Stmt) (hsz : sizeOf e < n + 1) (B : List String)
     (h : ElseF B e = true) : okS e = true := by
@@ -944,8 +1111,11 @@ theorem fstep_stmt {F : FloatOps} {n : Nat} (ih : AllF F n) (st : Stmt) (hsz : s
         by_cases ht : isTrueLit c = true
         · obtain ⟨p, rfl⟩ := isTrueLit_inv ht
           exact fall_ifTrue F B pos bp p body none h'.2 fb
-        · obtain ⟨h1, h2⟩ := condF_split h'.1 ht
-          exact fall_if F B pos bp c body h1 h2 h'.2
+        · by_cases hf : isFalseLit c = true
+          · obtain ⟨p, rfl⟩ := isFalseLit_inv hf
+            exact fall_ifFalse F B pos bp p body
+          · obtain ⟨h1, h2⟩ := condF_split h'.1 ht hf
+            exact fall_if F B pos bp c body h1 h2 h'.2
       | some e' =>
         have h' : (condF B c && StmtsF B body && ElseF B e') = true := h
         simp only [Bool.and_eq_true] at h'
@@ -956,8 +1126,11 @@ theorem fstep_stmt {F : FloatOps} {n : Nat} (ih : AllF F n) (st : Stmt) (hsz : s
         by_cases ht : isTrueLit c = true
         · obtain ⟨p, rfl⟩ := isTrueLit_inv ht
           exact fall_ifTrue F B pos bp p body (some e') h'.1.2 fb
-        · obtain ⟨h1, h2⟩ := condF_split h'.1.1 ht
-          exact fall_ifElse F B pos bp c body e' h1 h2 h'.1.2 h'.2 okb
+        · by_cases hf : isFalseLit c = true
+          · obtain ⟨p, rfl⟩ := isFalseLit_inv hf
+            exact fall_ifFalseElse F B pos bp p body e' h'.2
+          · obtain ⟨h1, h2⟩ := condF_split h'.1.1 ht hf
+            exact fall_ifElse F B pos bp c body e' h1 h2 h'.1.2 h'.2 okb
   | assign pos tok lhs rhs =>
     cases lhs with
     | nil => cases h
